@@ -252,12 +252,7 @@ impl<T> ReceiverInternal<T> {
 
     /// Blocking receive to call outside of asynchronous contexts.
     pub fn blocking_recv(&mut self) -> Option<T> {
-        if self.is_closed() && self.is_empty() {
-            return None;
-        }
-
-        self.chan.recv_semaphore.acquire_blocking(1).ok()?;
-        self.chan.recv()
+        future::block_on(self.recv())
     }
 
     /// Closes the receiving half of a channel, without dropping it.
